@@ -74,7 +74,7 @@ def few_outs(s):
     return [o[0], o[-1]] + o[1:2]
 
 
-def run_mc(res, scns, maxclock, timeout=1500, label="", outs_of=few_outs):
+def run_mc(res, scns, maxclock, timeout=5400, label="", outs_of=few_outs):
     with common.scratch("vf-mcc-") as d:
         for f in os.listdir(common.SPEC):
             if f.endswith(".tla"):
@@ -99,7 +99,7 @@ def run_mc(res, scns, maxclock, timeout=1500, label="", outs_of=few_outs):
     return r
 
 
-def mc_scenarios(tier, seed, n_quick=14, n_thorough=120):
+def mc_scenarios(tier, seed, n_quick=14, n_thorough=48):
     rng = random.Random(f"mcc-{seed}")
     pool = list(CS.small_scenarios(3))
     rng.shuffle(pool)
@@ -201,7 +201,7 @@ def validate(traces, nproc=None):
 
 def _validate_batch(arg):
     _i0, batch = arg
-    _acc, rej, r = tlc.validate_traces("CachingTrace", "CachingTrace.cfg", batch, timeout=1500)
+    _acc, rej, r = tlc.validate_traces("CachingTrace", "CachingTrace.cfg", batch, timeout=5400)
     return {str(k): v for k, v in rej.items()}, (r.distinct if r else 0)
 
 
